@@ -138,6 +138,7 @@ type FuncSpec struct {
 	Assigns  []Expr
 	HasAssigns bool
 	Loops    map[int]*LoopSpec
+	NamedLoops map[string]*LoopSpec // bound to the loop that carries the named variable
 	CallAsserts []CallAssert
 	Pure     bool
 	Panics   bool // the callee may panic; callers get an exceptional edge
